@@ -468,7 +468,8 @@ MANIFEST_TEXT["C20"] = dict(
     text=("Generated seeding histories on a build whose system seeders are compiled out (so the refusal path is real and every run is a pure "
           "function of the tape), long sessions whose every record must authenticate under an independently derived key schedule with sequence "
           "number i counted from zero after each ChangeCipherSpec, and seed-pair comparisons of hello randoms, session IDs, key exchanges and "
-          "whole transcripts. A second build with system seeders checks that reset then succeeds without injection."),
+          "whole transcripts. A second build with system seeders checks that reset then succeeds without injection. "
+          "A third target runs the /dev/urandom seeder itself (private copy of sysrng.c with open/read/close redirected) under scripted read results: short reads, EINTR, errors, end of file; zero-length entropy injections must not count as seeding."),
     design_ref="DESIGN.md section 4, C20",
     note="does not assess entropy quality; renegotiation histories are quiesced before the request (see C19 for arbitrary instants)",
 )
@@ -478,7 +479,8 @@ MANIFEST_TEXT["C06"] = dict(
           "full invariant set (state flags vs buffer queries, regions inside caller memory and not aliasing untaken bytes, closed exclusive and "
           "permanent with first error kept, never state 0 while open, pure queries, partial-ack continuation, byte-exact delivery) checked after "
           "every single call; plus exhaustive enumeration of all command sequences to depth 3 (quick) / 5 (thorough) from ~30 snapshots per "
-          "configuration. Exhaustive only to that depth."),
+          "configuration. Exhaustive only to that depth. "
+          "Contexts are also re-buffered (any layout and size, also below the documented minimum, also contexts that never had a usable buffer) and reset; a closed engine must export no key."),
     design_ref="DESIGN.md section 4, C06",
     note="two known findings (F4, F5) are excluded by construction and replayed by directed probes; unbounded histories are sampled, not enumerated",
 )
@@ -499,7 +501,8 @@ MANIFEST_TEXT["C16"] = dict(
           "shared/bidi layouts), with the plaintext length of every emitted record measured by decrypting the wire with an independent codec and "
           "compared with a reference computation of the limit in force; MFLN code sent/echoed parsed from the wire; get_mfln_negotiated checked; "
           "acceptance of maximum-size conformant records and refusal of oversize ones probed with crafted records; real interop with OpenSSL's "
-          "implementation of the extension."),
+          "implementation of the extension. "
+          "An OpenSSL client asks for exactly the limit of a small-buffer server; renegotiation ClientHellos crafted with the live keys carry no / another max_fragment_length; the negotiated flag is probed across a reset."),
     design_ref="DESIGN.md section 4, C16",
     note="reference fragment-length function written from the header documentation; trusts OpenSSL for interop and the EVP primitives for crafted records",
 )
@@ -509,7 +512,8 @@ MANIFEST_TEXT["C17"] = dict(
           "the scan does not disturb recency) are compared with an explicit LRU model after each step, so a corrupted link is found at the command "
           "that caused it; all histories up to depth 6 (quick) / 8 (thorough) over 5 ids for capacities 0..4 are enumerated. Resumption histories "
           "are judged by a reference predicate (cache model x suite lists x version ranges) and by the wire (no Certificate message, traffic "
-          "decrypting under keys derived from the new randoms)."),
+          "decrypting under keys derived from the new randoms). "
+          "The session_id field of every ClientHello is read off the wire (a session is offered exactly when the client could accept its resumption), and a scripted client that is not this library offers cached ids with a lower maximum version, without the session's suite, or unchanged."),
     design_ref="DESIGN.md section 4, C17",
     note="exhaustive only to the stated depth and id-universe size; larger capacities are sampled by random histories",
 )
@@ -570,7 +574,8 @@ MANIFEST_TEXT["C07"] = dict(
     text=("Metamorphic relation 'same bytes, other chunking => same complete outcome' checked for all seven streaming consumers: exhaustively for "
           "every two-chunk split of the fixture chains, a third of the test/x509 certificates (all in thorough), every key encoding, every PEM "
           "text and three recorded TLS sessions (every third split in quick, every split in thorough), and by generated multi-chunk / one-byte "
-          "partitions over valid, mutated and truncated inputs."),
+          "partitions over valid, mutated and truncated inputs. "
+          "Extra cleartext records (alerts followed by further bytes, oversized records) are spliced into the recorded TLS streams at the first record boundaries."),
     design_ref="DESIGN.md section 4, C07",
     note="the reference run is the library itself under another chunking (metamorphic); correctness of the outcome is the business of C04/C18/C01",
 )
@@ -579,7 +584,8 @@ MANIFEST_TEXT["C15"] = dict(
     text=("Model-based differential testing of the negotiation: a reference function written from the RFCs and the header documentation predicts "
           "version, suite, curve, signature hash, ALPN and alerts for generated pairs of configurations; a real server is driven by scripted "
           "ClientHellos (thousands per second, incl. values no BearSSL client would send) and real client/server pairs are compared through "
-          "their getters; all suite singletons and a fifth (quick) or all (thorough) ordered suite pairs x 3 versions x 3 key kinds are enumerated."),
+          "their getters; all suite singletons and a fifth (quick) or all (thorough) ordered suite pairs x 3 versions x 3 key kinds are enumerated. "
+          "A second connection (resumption offered, changed ALPN list) and a third one with the session carried to another client context check that reported values belong to the connection at hand; fatal alerts must be received as alerts."),
     design_ref="DESIGN.md section 4, C15",
     note="reference function independent of the T0 code; OpenSSL clients are not used here (covered in C01)",
 )
@@ -602,7 +608,8 @@ MANIFEST_TEXT["C03"] = dict(
           "flights for nine handshake kinds (certificate bodies sampled 1-in-2 in the quick tier, four masks per byte in thorough) and applies "
           "every message-level edit at every message; rapidcheck adds random masks, a server policy choosing suites that were not offered "
           "(including the stale table slot after a narrowed client list), version rewriting, and an instrumented certificate validator whose "
-          "verdict, returned key and usages are scripted on either side."),
+          "verdict, returned key and usages are scripted on either side. "
+          "Further modes: aborted handshake followed by a keyless resumption attempt; TLS_FALLBACK_SCSV; certificate-less client classes; and records (ChangeCipherSpec- or handshake-typed, never sent by the peer) inserted while the victim still has part of its own flight to send - the victim must not complete."),
     design_ref="DESIGN.md section 4, C03",
     note="renegotiated handshakes are altered only as ciphertext (C02); the Finished computation itself is checked against OpenSSL peers in C01",
 )
